@@ -30,6 +30,11 @@ def _fraction():
     return fraction.generate(os.path.join(REPO, 'src/quantity/money/__init__.py'))
 
 
+def _termops():
+    from . import termops
+    return termops.generate(os.path.join(REPO, 'src/quantity/term.py'))
+
+
 def _oplayer():
     from . import oplayer
     return oplayer.generate(os.path.join(REPO, 'src/quantity/__init__.py'))
@@ -91,6 +96,7 @@ GENERATORS = [
     ('AllocImpl', _alloc),
     ('RatesImpl', _rates),
     ('FractionImpl', _fraction),
+    ('TermOpsImpl', _termops),
     ('OpsImpl', _oplayer),
     ('MoneyConvImpl', _mconv),
     ('ConvStackImpl', _cstack),
